@@ -1,7 +1,7 @@
 (* Evaluation of the C10 model on harness-written cases (correspondence check). *)
 From Coq Require Import List ZArith NArith String Bool.
 From V.Base Require Import Hex.
-From V.C10 Require Import Model Machine.
+From V.C10 Require Import Model Machine Fast.
 Import ListNotations.
 Local Open Scope Z_scope.
 
@@ -40,11 +40,11 @@ Definition op_of_code (b : Z) : option op :=
   | _ => None
   end.
 
-(* spec_op is evaluated directly except for EXP with a large exponent (Z.pow would not terminate
-   in practice); the proof covers that case. *)
+(* spec_op is evaluated directly except for EXP with an exponent above 8 (Z.pow on unary-iterated
+   binary positives takes minutes for a 255-th power of a dense word); op_correct covers that case. *)
 Definition spec_agrees (o : op) (x y z r : Z) : bool :=
   match o with
-  | EXP => if y <? 4096 then spec_op o x y z =? r else true
+  | EXP => if y <? 9 then spec_op o x y z =? r else true
   | _ => spec_op o x y z =? r
   end.
 
@@ -75,14 +75,14 @@ Definition check (P : params) (cs : ccase) : bool :=
   match cs with
   | COp b x y z r =>
       match op_of_code b with
-      | Some o => wordb x && wordb y && wordb z && (impl_op o x y z =? r) && spec_agrees o x y z r
+      | Some o => wordb x && wordb y && wordb z && (impl_op o x y z =? r) && (fast_op o x y z =? r) && spec_agrees o x y z r
       | None => false
       end
   | CProg code input gas obs =>
       let c := zbytes code in
-      (* every non-halting step costs at least 1 gas, so gas + 2 iterations always suffice; the cap keeps
+      (* run_fast = run_impl (Fast.run_fast_eq); every non-halting step costs at least 1 gas, so gas + 2 iterations always suffice; the cap keeps
          the fuel numeral small (the harness generates programs well below it) *)
-      let '(o, maxh) := run_impl P c (zbytes input) (Z.to_nat (Z.min gas 40000) + 2) gas in
+      let '(o, maxh) := run_fast P c (zbytes input) (Z.to_nat (Z.min gas 40000) + 2) gas in
       obs_eqb o obs && (maxh <=? 1024)
   | CJump code bm dests =>
       let c := zbytes code in
